@@ -111,9 +111,13 @@ func (l *Lexer) NextToken() *token.Token {
 		}
 		return token.ConstantTokenChar(ch)
 	case '"', '`':
+		start := l.pos - 1
 		str, ok := l.readString(ch)
 		if !ok {
-			return l.EOLEOF()
+			// Unterminated string: deliver what is there as one ILLEGAL token (starting with the quote) so that
+			// no byte is dropped; the end marker follows (the parser asks for a continuation in line mode).
+			l.pos = len(l.input)
+			return token.Intern(token.ILLEGAL, string(l.input[start:]))
 		}
 		return token.Intern(token.STRING, str)
 	case 0:
